@@ -383,7 +383,7 @@ def _oracle_sweep(ctx, nl, salt):
 
 def system_checks(ctx):
     # (a) hand model against the implementation
-    cases, hist = _model_cases(ctx, ctx.n(40, 400))
+    cases, hist = _model_cases(ctx, ctx.n(30, 400))
     res = {'name': 'meridional-model-vs-implementation', 'n': 0, 'nontrivial': 0, 'histogram': hist, 'samples': [],
            'disagreements': []}
     try:
@@ -405,7 +405,7 @@ def system_checks(ctx):
         res['error'] = str(e)
     yield res
     # (b) the property itself, on the implementation
-    viol, hist2, nontrivial = _oracle_sweep(ctx, ctx.n(45, 600), 9)
+    viol, hist2, nontrivial = _oracle_sweep(ctx, ctx.n(36, 600), 9)
     res2 = {'name': 'convergence-order-on-implementation', 'n': hist2['lenses'] * len(EPS) * 2, 'nontrivial': nontrivial,
             'histogram': hist2, 'samples': [], 'disagreements': viol}
     yield res2
